@@ -31,7 +31,7 @@ def plan(tier, seed):
 
 def thresholds(tier):
   t = {"exhaustive_sets_complete": 12, "cycles_judged": 30000, "random_cycles": 10000, "fairness_windows": 2000,
-       "resets_checked": 50, "hold_cycles_checked": 1000, "embedded_arbiters": 8}
+       "resets_checked": 50, "hold_cycles_checked": 1000, "embedded_arbiters": 8, "twin_arbiter_comparisons": 500}
   if tier == "thorough":
     t.update({"exhaustive_sets_complete": 16, "cycles_judged": 400000, "random_cycles": 300000})
   return t
@@ -61,7 +61,7 @@ def ref_step(n, ptr, reqs, en, has_en):
 
 # --- driving the real thing -----------------------------------------------
 
-def emb_source(clsname, n, has_en):
+def emb_source(clsname, n, has_en, twin=False):
   """the arbiter inside a parent whose ONE update block drives the request bits one by one AND reads the grant bits: a cycle
   at block granularity (parent block -> arbiter blocks -> parent block) without any combinational loop at signal level"""
   L = ["from pymtl3 import *", f"from pymtl3.stdlib.basic_rtl.arbiters import {clsname}", "class Emb(Component):", "  def construct(s):",
@@ -70,16 +70,23 @@ def emb_source(clsname, n, has_en):
   for i in range(n): L.append(f"      s.arb.reqs[{i}] @= s.reqs[{i}]")
   for i in range(n): L.append(f"      s.grants[{i}] @= s.arb.grants[{i}]")
   if has_en: L.append("      s.arb.en @= s.en")
+  if twin:
+    # a second arbiter of the same class and size in the same parent, fed with the very same inputs
+    L.insert(6, f"    s.arb2 = {clsname}({n}); s.grants2 = OutPort({n})")
+    L += ["    @update", "    def up_switch2():"]
+    for i in range(n): L.append(f"      s.arb2.reqs[{i}] @= s.reqs[{i}]")
+    for i in range(n): L.append(f"      s.grants2[{i}] @= s.arb2.grants[{i}]")
+    if has_en: L.append("      s.arb2.en @= s.en")
   return "\n".join(L) + "\n"
 
 
-def mk(clsname, n, pg, embedded=False):
+def mk(clsname, n, pg, embedded=False, twin=False):
   from pymtl3 import DefaultPassGroup
   from pymtl3.passes.mamba.PassGroups import Mamba2020
   from pymtl3.stdlib.basic_rtl import arbiters
   if embedded:
     from vlib import specgen as G
-    a = G.load_source(emb_source(clsname, n, clsname.endswith("En")), "c19emb").Emb()
+    a = G.load_source(emb_source(clsname, n, clsname.endswith("En"), twin), "c19emb").Emb()
   else:
     a = getattr(arbiters, clsname)(n)
   a.elaborate()
@@ -124,6 +131,11 @@ def cycle(sh, a, n, has_en, ptr, reqs, en, tag, tick_only=False):
     sh.violation("grant-iff-request-broken", dict(w, grants=bin(grants)))
   if grants != eg:
     sh.violation("grant-not-first-at-or-after-pointer", dict(w, grants=bin(grants), expected=bin(eg)))
+  if hasattr(a, "grants2"):
+    sh.count("twin_arbiter_comparisons")
+    if int(a.grants2) != grants or int(a.arb2.priority_reg.out) != preg:
+      sh.violation("twin-arbiter-with-identical-inputs-behaves-differently", dict(w, grants=bin(grants), twin_grants=bin(int(a.grants2)),
+                   priority=bin(preg), twin_priority=bin(int(a.arb2.priority_reg.out))))
   a.sim_tick()
   after = int(getattr(a, 'arb', a).priority_reg.out)
   if after != (1 << nptr):
@@ -171,7 +183,7 @@ def run_rand(sh):
   has_en = clsname.endswith("En")
   rng = sh.rng("rand", clsname, n)
   emb = bool(sh.params.get("embedded"))
-  a = mk(clsname, n, rng.choice(["default", "mamba"]), embedded=emb)
+  a = mk(clsname, n, rng.choice(["default", "mamba"]), embedded=emb, twin=emb and n % 2 == 1)
   tag = clsname + ("(embedded)" if emb else "")
   if emb: sh.count("embedded_arbiters")
   ptr = 0
